@@ -38,6 +38,9 @@ class _Continue(Exception):
     pass
 
 
+_SIG_CACHE = {}
+
+
 def _real_operands(a, b):
     """Sample values of the CPython types two interpreter values stand for (None if unknown): used to ask CPython itself
     whether an operator is defined for that pair of types."""
@@ -927,6 +930,18 @@ class Interp:
                     return r
             return self.run_function(fn, args, kwargs)
         if isinstance(fn, Builtin):
+            # a call shape the *model* does not accept (an argument or keyword of the real builtin that the model lacks) is
+            # outside the modelled subset - never a crash of the checker and never an interpreted TypeError
+            try:
+                import inspect as _inspect
+                sig = _SIG_CACHE.get(fn.fn)
+                if sig is None:
+                    sig = _SIG_CACHE[fn.fn] = _inspect.signature(fn.fn)
+                sig.bind(*(([self] if fn.needs_interp else []) + list(args)), **kwargs)
+            except TypeError as e:
+                raise Unsupported(f"builtin {fn.name}: call shape not modelled ({e})")
+            except ValueError:
+                pass   # no signature available (C function): just call
             if fn.needs_interp:
                 return fn.fn(self, *args, **kwargs)
             return fn.fn(*args, **kwargs)
